@@ -6,6 +6,7 @@ what surfaced) is checked against it.  Single faults are swept per workload
 (fault_enumeration), multiple faults are sampled (exploration).
 """
 import copy
+import logging
 import struct
 
 from models import formats as F
@@ -16,7 +17,8 @@ from sim.streams import SimSource
 
 PHASES = ('before', 'after', 'post_process', 'region_complete')
 EXCS = ('RuntimeError', 'ValueError', 'struct.error', 'ImageFormatError',
-        'KeyError', 'Injected', 'MemoryError', 'UnicodeDecodeError')
+        'KeyError', 'Injected', 'MemoryError', 'UnicodeDecodeError',
+        'EmptyMessage', 'MultiLine', 'StrRaises', 'EmptyImageFormatError')
 SRC_EXCS = ('OSError', 'ConnectionResetError', 'SimSourceError')
 
 
@@ -24,10 +26,27 @@ class InjectedFault(Exception):
     pass
 
 
+class StrRaises(Exception):
+    """An exception that cannot even be rendered."""
+
+    def __str__(self):
+        raise RuntimeError('__str__ of the injected exception raises')
+
+    __repr__ = __str__
+
+
 def make_exc(kind):
     m = imgsim.fi()
     if kind == 'UnicodeDecodeError':
         return UnicodeDecodeError('ascii', b'\xff', 0, 1, 'injected')
+    if kind == 'EmptyMessage':
+        return ValueError()
+    if kind == 'EmptyImageFormatError':
+        return m.ImageFormatError()
+    if kind == 'MultiLine':
+        return RuntimeError('\ninjected fault\nsecond line %s %d\n')
+    if kind == 'StrRaises':
+        return StrRaises()
     return {'RuntimeError': RuntimeError, 'ValueError': ValueError,
             'struct.error': struct.error, 'KeyError': KeyError,
             'ImageFormatError': m.ImageFormatError,
@@ -45,6 +64,9 @@ class History:
         self.got = []         # chunks the reader received
         self.surfaced = None  # (op index, exc object)
         self.short_reads = 0
+        self.finished = {}    # name -> number of eat_chunk calls before finish()
+        self.fed_after_finish = []   # (name, exc type) eat_chunk after finish()
+        self.ended = None     # how the reader's loop ended
 
 
 def instrument(insp, name, faults, hist):
@@ -85,6 +107,8 @@ def instrument(insp, name, faults, hist):
                         pass
         except Exception as e:
             inj = armed is not None and e is exc
+            if name in hist.finished and not inj:
+                hist.fed_after_finish.append((name, type(e).__name__))
             hist.raised.setdefault(name, (i, e, inj))
             raise
         if f is not None and f['phase'] == 'after':
@@ -98,14 +122,52 @@ def instrument(insp, name, faults, hist):
         except Exception as e:
             hist.state[name].append(('EXC', type(e).__name__))
     insp.eat_chunk = eat
+    orig_finish = insp.finish
+
+    def finish():
+        hist.finished.setdefault(name, len(hist.eats[name]))
+        return orig_finish()
+    insp.finish = finish
+
+
+class _Sink(logging.Handler):
+    """Formats every record (so that lazy log arguments are rendered) and
+    throws the text away."""
+
+    def emit(self, record):
+        # like every stock handler: a record that cannot be rendered is the
+        # logging system's problem, never the caller's
+        try:
+            self.format(record)
+        except Exception:
+            pass
 
 
 def run_session(data, case, faults, src_fault):
     """One simulated session. Returns (hist, src, wrapper, close_exc)."""
+    if not case.get('debuglog'):
+        return _run_session(data, case, faults, src_fault)
+    # a deployment that runs with debug logging: records are really rendered
+    lg = logging.getLogger('oslo_utils')
+    old_level = lg.level
+    h = _Sink()
+    lg.addHandler(h)
+    lg.setLevel(logging.DEBUG)
+    try:
+        return _run_session(data, case, faults, src_fault)
+    finally:
+        lg.setLevel(old_level)
+        lg.removeHandler(h)
+
+
+def _run_session(data, case, faults, src_fault):
     m = imgsim.fi()
     sizes = streams.expand(case['rle'])
     pers = case['pers']
-    plan = [x for x in sizes if x > 0] if pers == 'file' else sizes
+    # file personality: a zero in the plan is a read(0) request (legal, and
+    # answered with b'' without being EOF)
+    plan = sizes if (pers == 'iter' or case.get('read0')) else \
+        [x for x in sizes if x > 0]
     src = SimSource(data, plan, fault=src_fault)
     w = m.InspectWrapper(src, expected_format=case.get('expected'),
                          allowed_formats=case.get('allowed'))
@@ -127,16 +189,20 @@ def run_session(data, case, faults, src_fault):
                     req = max(req, 65536)
                 elif ask == 'double':
                     req = req * 2 + 3
+                if op < len(plan) and plan[op] == 0:
+                    req = 0
                 if op < len(plan) and req > plan[op]:
                     hist.short_reads += 1
                 chunk = w.read(req)
-                if not chunk:
+                if not chunk and req > 0:
                     hist.got.append(chunk)
+                    hist.ended = 'eof'
                     break
             else:
                 try:
                     chunk = next(w)
                 except StopIteration:
+                    hist.ended = 'stop'
                     break
         except core.StepCapExceeded:
             raise
@@ -211,6 +277,21 @@ def judge(case, hist, src, w, close_exc, viol):
     if src.raised is not None and surf is not None and \
             surf[1] is src.raised and hist.got != delivered:
         viol('bytes_before_source_error_lost')
+    # (1b) the stream is not ended early: iteration stops only when the
+    # source stopped, and nothing of what the source holds is withheld
+    if surf is None and hist.ended == 'stop' and not src.stopped:
+        viol('iteration_ended_before_source', delivered=len(delivered),
+             source_bytes_left=len(src.data) - src.pos)
+    if surf is None and src.raised is None and \
+            b''.join(hist.got) != src.data:
+        viol('bytes_lost', got=sum(len(c) for c in hist.got),
+             source=len(src.data))
+    # (2b) the wrapper itself must not break an inspector: feeding one after
+    # telling it that the stream is finished makes it fail
+    if hist.fed_after_finish:
+        viol('inspector_fed_after_finish', inspector=hist.fed_after_finish[0][0],
+             exc=hist.fed_after_finish[0][1],
+             finished_after_chunks=hist.finished[hist.fed_after_finish[0][0]])
     # (3) never fed again
     for n, cnt in hist.after_raise.items():
         viol('failed_inspector_fed_again', inspector=n, calls=cnt,
@@ -223,16 +304,20 @@ def judge(case, hist, src, w, close_exc, viol):
         upto_cut = offered_all[:cut + 1]
     else:
         full = upto_cut = offered_all
+    def ne(seq):
+        # empty chunks carry no bytes: whether the wrapper passes them on to
+        # the inspectors is its own business
+        return [c for c in seq if c]
     for n in names:
         got = hist.eats[n]
         if n in hist.raised:
             want = upto_cut[:hist.raised[n][0] + 1]
-            ok = got == want
+            ok = got == want or ne(got) == ne(want)
         elif cut is not None and surf is not None and surf[0] == cut:
             # may or may not have been offered the cut chunk (order)
-            ok = got in (full, upto_cut)
+            ok = ne(got) in (ne(full), ne(upto_cut))
         else:
-            ok = got == full
+            ok = ne(got) == ne(full)
         if not ok:
             viol('inspector_not_offered_stream', inspector=n,
                  offered=[len(c) for c in got[:10]],
@@ -324,7 +409,7 @@ class C06(Check):
             r = streams.rle(sizes)
         else:
             fam, r = streams.gen_schedule(srng, n, info['boundaries'],
-                                          allow_empty=(pers == 'iter'),
+                                          allow_empty=True,
                                           max_chunks=800)
         crng = st('config')
         expected = None
@@ -342,6 +427,7 @@ class C06(Check):
         ask = core.weighted(crng, [(None, 5), ('plus1', 1), ('big', 2),
                                    ('double', 1)]) if pers == 'file' else None
         case = {'content': rec, 'pers': pers, 'fam': fam, 'rle': r, 'ask': ask,
+                'debuglog': crng.random() < 0.3, 'read0': pers == 'file',
                 'expected': expected, 'allowed': allowed, 'order': order,
                 'sweep': sweep, 'faults': [], 'src_fault': None}
         if not sweep:
@@ -405,7 +491,7 @@ class C06(Check):
     @staticmethod
     def _nch(case):
         return len([x for x in streams.expand(case['rle'])
-                    if x or case['pers'] == 'iter']) + (
+                    if x or case['pers'] == 'iter' or case.get('read0')]) + (
                         1 if case['pers'] == 'file' else 0)
 
     def bump(self, g, k, v=1):
@@ -420,6 +506,8 @@ class C06(Check):
         hist, src, w, close_exc = run_session(data, case, faults, src_fault)
         judge(case, hist, src, w, close_exc, viol)
         self.bump('probes', 'sessions')
+        if case.get('debuglog'):
+            self.bump('probes', 'debug_logging_rendered')
         if src.closed == 1:
             self.bump('probes', 'source_closed_exactly_once')
         self.bump('sim', 'bytes', src.pos)
@@ -452,7 +540,8 @@ class C06(Check):
                 self.bump('probes', 'expected_mismatch_cutoff')
                 cutkind = 'mismatch'
         log.add('session', [(f['insp'], f['at'], f['phase']) for f in faults],
-                src_fault, case.get('ask'), len(hist.got), src.reads,
+                src_fault, case.get('ask'), bool(case.get('debuglog')),
+                len(hist.got), src.reads,
                 None if hist.surfaced is None else
                 (hist.surfaced[0], type(hist.surfaced[1]).__name__),
                 sorted((n, r[0]) for n, r in hist.raised.items()),
@@ -497,6 +586,10 @@ class C06(Check):
         if case.get('ask'):
             c = copy.deepcopy(case)
             c['ask'] = None
+            yield c
+        if case.get('debuglog'):
+            c = copy.deepcopy(case)
+            c['debuglog'] = False
             yield c
         sizes = streams.expand(case['rle'])
         tot = sum(sizes)
